@@ -265,7 +265,7 @@ class Ctx:
     # -- output ------------------------------------------------------------------------------
     def write_replay(self, kind, payload):
         os.makedirs(os.path.join(VERIF, 'replays'), exist_ok=True)
-        body = dict(property=self.prop, kind=kind, **payload)
+        body = dict(property=self.prop, kind=kind, seed=self.seed, tier=self.tier, found_in_search=getattr(self, 'in_search', False), **payload)
         h = hashlib.sha1(canon(body).encode()).hexdigest()[:10]
         path = os.path.join(VERIF, 'replays', '%s-%s.json' % (self.prop, h))
         body['cmd'] = './check %s --replay %s' % (self.prop, os.path.relpath(path, VERIF))
